@@ -422,15 +422,19 @@ class Printer:
 
     def block_lines(self, stmts, ind):
         lines = []
+        prev_simple = False
         for s in stmts:
             new = self.stmt(s, ind)
-            if lines and len(new) == 1 and s[0] in SIMPLE and s[0] != "nop" and self.st.join_semi \
-                    and self.rng.random() < self.st.join_semi and not lines[-1].rstrip().endswith(("{", "}", ":")) \
-                    and "//" not in lines[-1] and not lines[-1].lstrip().startswith(("if", "else", "while", "for", "do", "case", "default")):
+            simple = s[0] in SIMPLE and s[0] != "nop"
+            if lines and len(new) == 1 and simple and prev_simple and self.st.join_semi \
+                    and self.rng.random() < self.st.join_semi and lines[-1].strip() \
+                    and "//" not in lines[-1] and "*/" not in lines[-1] and "/*" not in lines[-1]:
                 lines[-1] = lines[-1].rstrip(";") + "; " + new[0].strip()
             else:
                 lines += new
+            n0 = len(lines)
             self.decorate(lines, ind)
+            prev_simple = simple and len(lines) == n0 and "//" not in lines[-1]
         return lines
 
     def decorate(self, lines, ind):
@@ -451,21 +455,25 @@ class Printer:
         if self.st.comments and self.rng.random() < 0.5:
             lines.append("// " + self.rng.choice(COMMENT_WORDS))
         ind = self.st.indent if self.rng.random() < 0.5 else ""
+        prev_simple = False
         for it in p:
             if it[0] == "lab":
                 lines.append(" ".join([label_name(it[1])] + [self.var(sc, x) for sc, x in it[2]]) + ":")
                 self.decorate(lines, "")
+                prev_simple = False
             else:
                 new = self.stmt(it[1], ind)
                 s = it[1]
-                if lines and len(new) == 1 and s[0] in SIMPLE and s[0] != "nop" and self.st.join_semi \
-                        and self.rng.random() < self.st.join_semi and not lines[-1].rstrip().endswith(("{", "}", ":")) \
-                        and "//" not in lines[-1] and "*/" not in lines[-1] and lines[-1].strip() \
-                        and not lines[-1].lstrip().startswith(("if", "else", "while", "for", "do")):
+                simple = s[0] in SIMPLE and s[0] != "nop"
+                if lines and len(new) == 1 and simple and prev_simple and self.st.join_semi \
+                        and self.rng.random() < self.st.join_semi and lines[-1].strip() \
+                        and "//" not in lines[-1] and "*/" not in lines[-1] and "/*" not in lines[-1]:
                     lines[-1] = lines[-1].rstrip(";") + "; " + new[0].strip()
                 else:
                     lines += new
+                n0 = len(lines)
                 self.decorate(lines, ind)
+                prev_simple = simple and len(lines) == n0 and "//" not in lines[-1]
         nl = "\r\n" if self.st.crlf else "\n"
         text = nl.join(lines)
         if self.st.final_nl:
